@@ -215,6 +215,14 @@ func Groups(opts []cat.Opts, cb bool) []*cat.Catalog {
 			"d2": dec("a", []cat.Param{par("T2@g", "grp", 1)}, cat.Result{Ks: []string{"T2@g"}, M: "grp", N: 2, O: 1}),
 		}
 	})
+	// an inner decorator of the group and of a single key at once: it may be started through
+	// either key and must be handed the outer decorator's slice both times
+	decVariants = append(decVariants, func() map[string]*cat.Fn {
+		return map[string]*cat.Fn{
+			"d1": dec("r", []cat.Param{par("T2@g", "grp", 1)}, cat.Result{Ks: []string{"T2@g"}, M: "grp", N: 1, O: 1}),
+			"d2": dec("a", []cat.Param{par("T2@g", "grp", 1), par("T3", "req", 1)}, cat.Result{Ks: []string{"T2@g"}, M: "grp", N: 2, O: 1}, cat.Result{Ks: []string{"T3"}, M: "one", O: 1}),
+		}
+	})
 	for _, p1 := range places() {
 		for pi2, p2 := range places() {
 			for _, gm := range []string{"grp", "soft"} {
@@ -335,6 +343,29 @@ func Reenter(opts []cat.Opts, cb bool) []*cat.Catalog {
 				}
 			}
 		}
+	}
+	return out
+}
+
+// DeepTree is the visibility motif on a tree four levels deep with siblings at the bottom
+// (r - a - b - {c, d}) and a sibling of a (e): one private constructor in each of c, d, e and b,
+// one in the root, consumers of every key invoked from every scope; Export on some.
+func DeepTree(opts []cat.Opts, cb bool) []*cat.Catalog {
+	var out []*cat.Catalog
+	tree := map[string]string{"r": "", "a": "r", "b": "a", "c": "b", "d": "b", "e": "r"}
+	for v := 0; v < 8; v++ {
+		c := &cat.Catalog{Parent: copyTree(tree), Fns: map[string]*cat.Fn{}}
+		c.Fns["c1"] = ctor(Place{"c", v&1 != 0}, nil, one("T0"))
+		c.Fns["c2"] = ctor(Place{"d", false}, []cat.Param{par("T2", "req", 0)}, one("T1"))
+		c.Fns["c3"] = ctor(Place{"r", false}, nil, one("T2"))
+		c.Fns["c4"] = ctor(Place{"b", v&2 != 0}, []cat.Param{par("T0", "opt", 1)}, one("T3"))
+		c.Fns["c5"] = ctor(Place{"e", v&4 != 0}, nil, one("T2"), cat.Result{Ks: []string{"T4@g"}, M: "grp"})
+		c.Fns["i1"] = inv(par("T0", "opt", 1), par("T1", "opt", 1))
+		c.Fns["i2"] = inv(par("T3", "req", 0), par("T4@g", "grp", 1))
+		c.Fns["i3"] = inv(par("T2", "req", 0))
+		c.Order = []string{"c3", "c1", "c2", "c4", "c5"}
+		c.Note = fmt.Sprintf("deeptree v=%d", v)
+		out = append(out, finish(c, opts, cb))
 	}
 	return out
 }
